@@ -132,7 +132,8 @@ def judge(text, result):
 
 
 TRIVIA = [" ", "  ", "\t", "\n", "\r\n", " \n ", " (* c *) ", "(* c *)", " (* multi\nline *) ", "(* ( *)", "(*x*)(*y*)",
-          " (* café ü *) ", "\n\t(* - *)\n", " (**) ", "(***)"]
+          " (* café ü *) ", "\n\t(* - *)\n", " (**) ", "(***)", " (* multi\r\nline *) ", "  (* a\r\n\r\n b é *) x"[:-2],
+          "(** doc **)", "(* x **)"]
 
 
 def make_doc(rng, bad01):
